@@ -77,8 +77,9 @@ void msg_queue_fini(void)
 	struct lp_msg *m = atomic_load_explicit(&queues[rid].list, memory_order_relaxed);
 	while(m != NULL) {
 		VH(VH_Q_FINI_LIST, m, 0, 0);
+		struct lp_msg *next = m->next; // read it before the message is released
 		msg_allocator_free(m);
-		m = m->next;
+		m = next;
 	}
 }
 
